@@ -171,7 +171,7 @@ def gen_alias_trace(recipe):
       elif meth == 'set_threshold':
         fresh.set_threshold(1.0)
       else:
-        fresh.calibrate_threshold(*w_.V[0][0])
+        fresh.calibrate_threshold(*w_.V[0][0][:2])
     except NotFittedError:
       ev['exc'] = 'NotFittedError'
     except Exception as e:
@@ -222,9 +222,10 @@ def run(ctx):
     cand = [h for h in hs[g] if any(o[0] in ('Clone', 'Pickle', 'SetParams') for o in h)]
     for k in range(3 if ctx.quick else 15):
       if cand:
-        life.append(dict(src='life', est=name, seed=int(rng.integers(1 << 30)), same_dims=bool(k % 2),
+        life.append(dict(src='life', est=name, seed=int(rng.integers(1 << 30)), same_dims=bool(k % 2), indexed=bool(k % 3 == 0),
                          ops=cand[(k + gen.ALL.index(name)) % len(cand)]))
     life.append(dict(src='life', est=name, seed=int(rng.integers(1 << 30)), same_dims=True, ops=c17.directed_ops(name)))
+    life.append(dict(src='life', est=name, seed=int(rng.integers(1 << 30)), same_dims=True, indexed=True, ops=c17.directed_ops(name)))
   ctx.rule = ('every constructor parameter of every estimator (names from inspect.signature at run time) x value kinds '
               '%s: construct/get_params/set_params with object identity as tokens; every deprecated alias; every public '
               'method on a fresh object; plus TLC-simulated life-cycle histories with clone / pickle / set_params; '
